@@ -53,7 +53,7 @@ def generate(R: Draw, tier: str) -> dict:
             grp = "V"
     lib, rs = schemas.get(sref)
     g = docgen(rs)
-    if R.bool(0.008):
+    if R.bool(0.006):
         # dense case: EVERY slice (with and without include_parents) of a small source document is pasted at
         # EVERY position of a small target document
         return {"schema": sref, "group": grp, "dense": True, "doc": g.doc(R, "tiny"), "src": g.doc(R, R.choice(["tiny", "small"]))}
